@@ -170,6 +170,13 @@ func (g *verifGhost41) step() {
 		}
 		lk := ll[rt.Choose(len(ll))]
 		fh := r.dir.leaves[lk.open.file].handle()
+		if rt.NondetBool("FREE_STATEID while the lock is still held") {
+			// the state must be refused (locks held) and stay fully usable
+			res := r.sequence(&nfsv4.NfsArgop4_OP_FREE_STATEID{OpfreeStateid: nfsv4.FreeStateid4args{FsaStateid: lk.stateID}})
+			rt.Assert(res.Status == nfsv4.NFS4ERR_LOCKS_HELD, "a lock state that still holds locks cannot be freed")
+			rt.Cover("41:free-stateid-locks-held")
+			return
+		}
 		res := r.sequence(verifPutFH(fh), &nfsv4.NfsArgop4_OP_LOCKU{Oplocku: nfsv4.Locku4args{Locktype: nfsv4.WRITE_LT, LockStateid: lk.stateID, Offset: 0, Length: 0xffffffffffffffff}})
 		if res.Status == nfsv4.NFS4_OK {
 			rt.Cover("41:locku")
@@ -234,7 +241,7 @@ func verifHarness_C18_Sequence41() {
 		k = 5
 	}
 	rt.Bound("operations_after_prefix", k)
-	rt.MustCover("41:open", "41:open-upgrade", "41:close", "41:downgrade", "41:lock-new-owner", "41:locku", "41:free-stateid", "41:new-incarnation", "41:lease-expired", "41:lease-not-expired", "41:unlinked-still-reachable", "41:destroy-session")
+	rt.MustCover("41:open", "41:open-upgrade", "41:close", "41:downgrade", "41:lock-new-owner", "41:locku", "41:free-stateid", "41:free-stateid-locks-held", "41:new-incarnation", "41:lease-expired", "41:lease-not-expired", "41:unlinked-still-reachable", "41:destroy-session")
 	r := verifNewRig41("f", "g")
 	g := &verifGhost41{r: r, gen: 1}
 	r.login("client-a", 1)
